@@ -126,6 +126,12 @@ def _lock():
 def regenerate_tables():
     """Generated/Tables.v from the imported /repo modules (rewritten only when changed)."""
     env = dict(os.environ, PYTHONPATH=REPO, PYTHONHASHSEED="0")
+    ut = os.path.join(COQ, "Generated", "UnicodeTables.v")
+    stamp = "(* python %s *)" % sys.version.split()[0]
+    if not os.path.exists(ut) or stamp not in open(ut).readline():
+        rc, out = _run([sys.executable, os.path.join(VERIF, "harness", "unitables.py")], env=env)
+        if rc != 0:
+            raise BuildFailure("unitables.py", out)
     rc, out = _run([sys.executable, os.path.join(VERIF, "harness", "tables.py")], env=env)
     if rc != 0:
         raise BuildFailure("tables.py (import of /repo failed)", out)
